@@ -15,6 +15,7 @@ from pathlib import Path
 from typing import Optional
 
 import click
+from rich.markup import escape
 from rich import pretty
 from rich.console import Console
 from rich.logging import RichHandler
@@ -117,11 +118,11 @@ def describe_packets(file_path: Path) -> None:
 
     npackets = len(packets)
     if npackets == 0:
-        console.print(f"No packets found in {file_path}")
+        console.print(f"No packets found in {escape(str(file_path))}")
         return
 
     # Create table for packet data display
-    table = Table(title=f"[bold magenta]{file_path}: {npackets} packets[/bold magenta]",
+    table = Table(title=f"[bold magenta]{escape(str(file_path))}: {npackets} packets[/bold magenta]",
                   show_header=True,
                   header_style="bold magenta")
 
